@@ -60,6 +60,7 @@ fn field_segs(rng: &mut Rng) -> Vec<String> {
     }
     match rng.below(8) {
         0 => vec!["d".into(), rng.pick(&FIELDS).to_string()],
+        2 => vec![rng.pick(&["axis", "is", "this", "f0is"]).to_string()],
         1 => vec!["k v".into()],
         _ => vec![rng.pick(&FIELDS).to_string()],
     }
@@ -69,6 +70,9 @@ pub fn all_paths() -> Vec<Vec<String>> {
     let mut v: Vec<Vec<String>> = FIELDS.iter().map(|f| vec![f.to_string()]).collect();
     v.extend(FIELDS.iter().map(|f| vec!["d".to_string(), f.to_string()]));
     v.push(vec!["k v".into()]);
+    for f in ["axis", "is", "this", "f0is"] {
+        v.push(vec![f.to_string()]);
+    }
     v.push(long_path(31));
     v.push(long_path(40));
     v
@@ -153,7 +157,7 @@ pub fn random_match_on(rng: &mut Rng) -> Option<Value> {
             let mut m = vec![];
             // sources that are prefixes of one another with the separator a key encoding might use; ids that
             // agree modulo 2^32 or are extreme: neighbouring keys of any (source, id) cache
-            for s in ["s", "t", "s-", "S", ""] {
+            for s in ["s", "t", "s-", "S", "", "Ab", "AB", "aB"] {
                 if rng.chance(if s == "s-" || s == "S" || s.is_empty() { 1 } else { 2 }, 3) {
                     let k = rng.below(3);
                     let ids: Vec<i64> = (0..k).map(|_| *rng.pick(&[1i64, 2, -1, -2, 0, 1, 2, -1, 4294967297, -4294967297, i64::MAX, i64::MIN, 64, -64, 63, 32, 128])).collect();
@@ -235,6 +239,7 @@ pub fn random_rule(rng: &mut Rng, cfg: &Cfg, name: &str, earlier: &[String]) -> 
         attack: if cfg.meta { pick_set(rng, &pool_att) } else { None },
         actions: if cfg.meta { pick_set(rng, &pool_act) } else { None },
         disable: if rng.chance(cfg.disabled_prob.0, cfg.disabled_prob.1) { Some(rng.chance(1, 2)) } else { None },
+        tight: false,
     }
 }
 
@@ -290,7 +295,7 @@ pub fn random_event(rng: &mut Rng, missing: (u64, u64)) -> DynEvent {
         }
     }
     DynEvent {
-        source: rng.pick(&["s", "s", "s", "t", "u", "s-", "S", "T", ""]).to_string(),
+        source: rng.pick(&["s", "s", "s", "t", "u", "s-", "S", "T", "", "ab", "Ab", "AB"]).to_string(),
         id: *rng.pick(&[1i64, 1, 1, 2, 2, 0, 0, -1, -1, 4294967297, 4294967298, -4294967295, i64::MAX, i64::MIN, 64, 63, 32, 128]),
         fields,
     }
